@@ -426,6 +426,13 @@ impl<'p> CoroutinePool<'p> {
             if CANCEL_TASKS.contains(&task_id) {
                 _ = CANCEL_TASKS.remove(&task_id);
                 warn!("Cancel task:{} successfully !", task_id);
+                // the task will never run: settle its waiter instead of leaving it blocked
+                if self.no_waits.contains(&task_id) {
+                    _ = self.no_waits.remove(&task_id);
+                    return;
+                }
+                _ = self.results.insert(task_id, Err("The task was cancelled"));
+                self.notify(task_id);
                 return;
             }
             if let Some(co) = SchedulableCoroutine::current() {
